@@ -113,13 +113,12 @@ def filter_columns(flt):
 
 def _run(case):
     impl.load()
-    import numpy as np
     import pandas as pd
     from vivarium import Component
     from vivarium.framework.engine import SimulationContext
     from vivarium.framework.results.observer import Observer
 
-    out = {"outcome": "ok", "error": None, "events": [], "emitted_unknown": [], "final": None, "at": None}
+    out = {"outcome": "ok", "error": None, "events": [], "final": None}
     traj = random.Random(case["tseed"])
     T = case["traj"]
     holder = {}
@@ -169,20 +168,25 @@ def _run(case):
             sim = holder["sim"]
             pop = sim.get_population()
             nb = traj.randint(0, T["max_births"]) if traj.random() < T["p_birth"] else 0
+            changes = {"g": {}, "h": {}, "x": {}, "y": {}}
+            untrack = []
+            tracked = pop["tracked"].to_dict() if len(pop) else {}
             for sid in list(pop.index):
                 if traj.random() < T["p_change"]:
                     col = traj.choice(["g", "h", "x", "y"])
-                    v = new_values(1, [sid])[col]
-                    dt = {"g": "str", "h": "str", "x": "float64", "y": "int64"}[col]
-                    self.population_view.update(pd.Series(v, index=[sid], name=col, dtype=dt))
-                if pop.loc[sid, "tracked"] and traj.random() < T["p_untrack"]:
-                    self.tv.update(pd.Series(False, index=[sid], name="tracked"))
+                    changes[col][sid] = new_values(1, [sid])[col][0]
+                if tracked[sid] and traj.random() < T["p_untrack"]:
+                    untrack.append(sid)
             u = case.get("unknown")
             if u and when == "pre" and u["step"] == self.step and u["phase"] == k and len(pop):
                 sid = list(pop.index)[u["who"] % len(pop)]
-                col = u["col"]
-                v, dt = {"g": ("zz", "str"), "h": ("w", "str"), "x": (10.0, "float64")}[col]
-                self.population_view.update(pd.Series([v], index=[sid], name=col, dtype=dt))
+                changes[u["col"]][sid] = {"g": "zz", "h": "w", "x": 10.0}[u["col"]]
+            for col, ch in changes.items():
+                if ch:
+                    dt = {"g": "str", "h": "str", "x": "float64", "y": "int64"}[col]
+                    self.population_view.update(pd.Series(list(ch.values()), index=list(ch.keys()), name=col, dtype=dt))
+            if untrack:
+                self.tv.update(pd.Series(False, index=untrack, name="tracked"))
             if nb:
                 self.creator(nb)
 
@@ -192,10 +196,10 @@ def _run(case):
             pop = sim.get_population()
             inev = set(int(i) for i in e.index)
             rows = []
-            for sid, r in pop.iterrows():
+            for sid, r in zip(pop.index, pop[["sid", "tracked", "g", "h", "x", "y"]].to_dict("records")):
+                x4 = float(r["x"]) * SCALE
                 rows.append({"sid": int(r["sid"]), "idx": int(sid), "tracked": bool(r["tracked"]), "g": str(r["g"]), "h": str(r["h"]),
-                             "x": int(round(float(r["x"]) * SCALE)), "xexact": float(r["x"]) * SCALE == round(float(r["x"]) * SCALE),
-                             "y": int(r["y"]), "in_event": int(sid) in inev})
+                             "x": int(round(x4)), "xexact": x4 == round(x4), "y": int(r["y"]), "in_event": int(sid) in inev})
             out["events"].append({"step": self.step, "phase": k, "time": int(e.time), "clock": int(sim._clock.time),
                                   "rows": rows, "after": None})
 
@@ -207,12 +211,6 @@ def _run(case):
             self.mutate(k, "post")
             if k == 3:
                 self.step += 1
-
-    def wrap_mapper(name, fn):
-        """user mapper + record of every unknown category it emits (for the oracle)"""
-        return fn
-
-    cats = {s["name"]: KINDS[s["kind"]][0] for s in case["strats"]}
 
     def register_strat(b, s):
         kind, name, ex = s["kind"], s["name"], s.get("excl_code")
@@ -457,16 +455,22 @@ def concat_payload(o, r):
 def impl_table(res, names, scale):
     """canonical form of an adding observation's formatted result: {key tuple (sorted names): int | str}, problems"""
     probs = []
-    want_cols = set(names) if names else {"stratification"}
     cols = res["cols"]
-    if set(cols) != want_cols | {"value"} or len(cols) != len(want_cols) + 1:
-        probs.append(f"columns {cols}, expected {sorted(want_cols)} + value")
-        return None, probs
-    order = [cols.index(n) for n in (names if names else ["stratification"])]
+    if names:
+        if set(cols) != set(names) | {"value"} or len(cols) != len(names) + 1:
+            probs.append(f"columns {cols}, expected {sorted(names)} + value")
+            return None, probs
+        order = [cols.index(n) for n in names]
+    else:
+        # not stratified: one row; how the framework labels it ("stratification" = "all") is not part of the property
+        if "value" not in cols or len(cols) != 2:
+            probs.append(f"columns {cols}, expected one label column + value")
+            return None, probs
+        order = None
     vi = cols.index("value")
     tab = {}
     for row in res["rows"]:
-        k = tuple(row[j] for j in order)
+        k = tuple(row[j] for j in order) if order is not None else ("all",)
         v = row[vi]
         if isinstance(v, list):
             f = Fraction(v[0], v[1]) * scale
@@ -527,7 +531,7 @@ class C16(Prop):
                "reference Python in the harness; aggregators are additive (count, sums); float arithmetic idealised "
                "(all values exact dyadics)")
     n_quick = 150
-    n_thorough = 3000
+    n_thorough = 2000
     workers = 8
     case_timeout = 60
     rule = ("each case is a whole simulation with a generated observer program (0-4 stratifications of 7 kinds, 1-5 adding / "
@@ -926,6 +930,8 @@ def gen_obs(rng, k, snames, defaults):
     mod = rng.choice([1, 1, 1, 2, 3])
     o = {"name": f"o{k}", "type": typ, "when": rng.choice(PH), "filter": rng.choice(FILTERS), "mod": mod,
          "rem": rng.randrange(mod)}
+    if o["when"] == "collect_metrics" and rng.random() < 0.5:
+        o["default_when"] = True                   # rely on the interface's default phase
     if typ == "cat":
         o["cols"] = rng.sample(["y", "x", "pv"], rng.randint(0, 3))
         return o
@@ -974,7 +980,7 @@ def gen_case(rng, tier):
             "p_change": rng.choice([0.0, 0.2, 0.5]), "p_untrack": rng.choice([0.0, 0.15, 0.4])}
     case = {"pop": rng.choice([0, 1, 1, 2, 3, 5, 8] + ([13, 21] if big else [])), "steps": steps, "tseed": rng.randrange(10 ** 6),
             "traj": traj, "unknown": None, "strats": strats, "cfg_default": cfg_default, "cfg_excl": cfg_excl, "obs": obs}
-    if rng.random() < 0.2:
+    if rng.random() < 0.22:
         case["unknown"] = {"step": rng.randrange(steps), "phase": rng.randrange(4), "col": rng.choice(["g", "h", "x"]),
                            "who": rng.randrange(100)}
     # a category missing from the declared list: the mapper will run into it sooner or later
